@@ -108,7 +108,9 @@ Print Assumptions C07_ugrid_writable_faithful.
 
 (* for every template a history can produce and both routes (dataset / NetCDF file): when the
    encoded dataset is self-consistent, the decoder returns the grid's own connectivity table and
-   node coordinates, literally (same faces, same order, same corners, same positions) *)
+   node coordinates, literally (same faces, same order, same corners, same positions).  No hypothesis
+   restricts which node indices the faces use: orphan nodes (node 0 included) keep every index in place
+   (Example c07_ugrid_roundtrip_orphan_nodes) *)
 Theorem C07_ugrid_roundtrip : forall vr tmpl ds via_file,
   c07_tmpl_ok tmpl -> c07_ds_wfb ds = true ->
   c07_closed (uo_ds (c07_encode_ugrid vr tmpl ds)) = true ->
